@@ -13,6 +13,8 @@ import (
 	"reflect"
 	"sync"
 	"time"
+
+	"github.com/brunoga/deep"
 )
 
 type cex struct {
@@ -362,3 +364,10 @@ func Run(h func()) (failures []string, skipped string, panicked any) {
 	h()
 	return
 }
+
+// Cut ends the current symbolic path at a stated bound (reported in evidence, never counted as a pass of
+// anything beyond it). Natively it ends the harness.
+func Cut(label string) { panic(assumeFailed{"cut: " + label}) }
+
+// DeepCopy copies the object graph of v (model of deep.MustCopy and of a vault's Read).
+func DeepCopy[T any](v T) T { return deep.MustCopy(v) }
